@@ -61,5 +61,5 @@ MIRRORS = {
     "C15": [("c10", {"C10.saturate": "C15.nonneg"}, ())],
     # what the exported policy must reproduce: the action path of training (squash wrapper)
     # ... and the observation normalisation of training: the batch a rollout step returns is normalised with the statistics it stores
-    "C20": [("c19", {"C19.squash": "C20.pipeline", "C19.moments": ("C20.pipeline", "obs step: normalised")}, ())],
+    "C20": [("c19", {"C19.squash": "C20.pipeline", "C19.moments": ("C20.pipeline", ("obs step: normalised", "obs step: updated state stored", "reward step: updated state stored"))}, ())],
 }
